@@ -21,7 +21,7 @@ func init() {
 	register(&PropSpec{ID: "C16",
 		Explanation: "Structural agreement clauses of the timestamp codec, per format: the separator and digit count the writer wrapper passes to formatDuration and the separators / millisecond scale the reader wrapper passes to parseDuration are extracted as constants and must agree (writer separator among the reader's, scale 3, 2 or 3 digits); each codec entry point reaches only its own wrappers; the WebVTT inline-timestamp pattern accepts the writer's shape; STL formatter and parser take the frame rate from the same gsiBlock field. Not decided: truncation, field ranges, padding for every value, monotonicity, self-inverse per value, the 30 fps frame loss — statements about floor/divide on 8.6e7 values that need evaluation or a solver.",
 		Assumptions: commonAssumptions,
-		Rules:       []Rule{{"timestamp-format", ruleDurationFormats()}},
+		Rules:       []Rule{{"timestamp-format", ruleDurationFormats()}, {"exact-truncation", ruleExactTruncation(8)}, {"frame-rounding", ruleSTLRounding}},
 	})
 	register(&PropSpec{ID: "C17",
 		Explanation: "Decides that (R8.1) every io.Reader parameter of the library flows only into consumers documented to loop over short reads (bufio.Scanner/Reader, xml.Decoder, astits.Demuxer, io.ReadFull/ReadAtLeast/ReadAll) or into in-package functions that do the same, that no method Read([]byte) is called directly anywhere in the package (zero-rule with a positive control), and (R8.2) by enumerating all paths of every bufio.SplitFunc installed in the package with an interval domain over len(data), the terminator index and atEOF, that whenever a length-guarded look-ahead byte has not arrived and atEOF is not known true the function returns (0, nil, nil), and that every returned token advances. Given these, every byte the package interprets comes from a consumer whose output is independent of read sizes. Not decided: that bufio, encoding/xml and astits honour that documentation.",
@@ -46,12 +46,12 @@ func init() {
 	register(&PropSpec{ID: "C02",
 		Explanation: "Structural agreement clauses of the WebVTT codec: every cue setting (separator ':') and region setting (separator '=') the writer emits is parsed by the reader's switch into the same model field (tables extracted from the constant+field concatenations of the writer and the switch arms of the reader); escape tables are inverse; all region definitions are emitted before the cue loop starts; timestamp separator/scale agree and the inline-timestamp pattern accepts the writer's shape. Not decided: tag-stack semantics, voice extraction, comment attachment, STYLE content, round trip.",
 		Assumptions: commonAssumptions,
-		Rules:       []Rule{{"settings", ruleWebVTTSettings}, {"escape-tables", ruleEscapeTables}, {"timestamp-format", ruleDurationFormats("WebVTT")}},
+		Rules:       []Rule{{"settings", ruleWebVTTSettings}, {"escape-tables", ruleEscapeTables}, {"timestamp-format", ruleDurationFormats("WebVTT")}, {"per-cue-independence", ruleNoCarriedState((*Prog).WriterClosure, 5)}, {"tag-stack", ruleTagStackConsulted}},
 	})
 	register(&PropSpec{ID: "C03",
 		Explanation: "Structural agreement clauses of the TTML codec: each of the tts: attributes, header/subtitle/item attributes, metadata elements and element paths has the same XML local name (and attribute-ness) on the input and output structs (struct tags compared field by field); each style attribute is wired In.X → StyleAttributes.F → Out.X through the same F; every offset-time metric the grammar constant admits (alternatives of capture group 3, parsed with regexp/syntax) is handled by UnmarshalText; the language table is used forwards by the reader and backwards by the writer and covers the same languages as STL's; MarshalText/UnmarshalText separator and scale agree. Not decided: values of time expressions, <br/> handling, style inheritance links (shared-parent overwrite is a value-level map collision), character coverage.",
 		Assumptions: commonAssumptions,
-		Rules:       []Rule{{"attributes", ruleTTMLAttributes}, {"code-maps", ruleSTLCodeMaps}, {"timestamp-format", ruleDurationFormats("TTML")}},
+		Rules:       []Rule{{"attributes", ruleTTMLAttributes}, {"code-maps", ruleSTLCodeMaps}, {"timestamp-format", ruleDurationFormats("TTML")}, {"language-sources", ruleLanguageSources("TTML")}, {"exact-truncation", ruleExactTruncation(8)}, {"per-cue-independence", ruleNoCarriedState((*Prog).WriterClosure, 5)}},
 	})
 	register(&PropSpec{ID: "C04",
 		Explanation: "Structural agreement clauses of the SSA/ASS codec: (a) every style column name is bound to the same ssaStyle field by the Format-line builder (updateFormat), the row writer (string) and the row reader (newSSAStyleFromString), event columns likewise (string / newSSAEventFromString / the Format list of WriteToSSA) and script-info names (bytes / parse); the model converters are mutually inverse (style ↔ StyleAttributes, script info ↔ Metadata); (b) the literal the row writer prints for a true boolean and for Marked is one the reader takes as true; (c) section headers written are sections read; (d) colour prefix and radix agree. Tables are extracted from the SSA switch arms and stores of /repo on every run. Not decided: Format-permutation behaviour, text splitting, idempotent rewrite.",
@@ -61,7 +61,7 @@ func init() {
 	register(&PropSpec{ID: "C05",
 		Explanation: "Structural agreement clauses of the EBU STL codec, decided by evaluating constants and literal tables of /repo and comparing sibling implementations: (T3) the 1024-byte GSI and 128-byte TTI layouts — writer part widths and reader slice offsets extracted per field — agree field by field, sum to the block sizes and do not overlap; (T2) every character the writer tables encode is decoded back to itself by the reader table, printable ASCII the writer passes through is decoded as itself, no table has duplicate keys or values; (T4) justification code maps are mutually inverse, frame-rate table rows are 8-byte keys with positive rates, STL and TTML language tables cover the same languages; (A5) GSI ↔ Metadata wiring agrees in both directions; every division by the frame rate is guarded. Not decided: timecode quantisation, diacritic composition, style runs, teletext-vs-open display-standard behaviour.",
 		Assumptions: commonAssumptions,
-		Rules:       []Rule{{"layouts", ruleSTLLayouts}, {"char-tables", ruleSTLCharTables}, {"code-maps", ruleSTLCodeMaps}, {"metadata-wiring", ruleSTLMetadataWiring}, {"support-framerate", ruleSupportFramerate}, {"timestamp-format", ruleDurationFormats("STL")}},
+		Rules:       []Rule{{"layouts", ruleSTLLayouts}, {"char-tables", ruleSTLCharTables}, {"code-maps", ruleSTLCodeMaps}, {"metadata-wiring", ruleSTLMetadataWiring}, {"support-framerate", ruleSupportFramerate}, {"timestamp-format", ruleDurationFormats("STL")}, {"language-sources", ruleLanguageSources("STL")}, {"frame-rounding", ruleSTLRounding}, {"reader-full-scan", ruleReaderFullScan([]string{"ReadFromSTL"}, 1)}, {"per-cue-independence", ruleNoCarriedState((*Prog).WriterClosure, 5)}},
 	})
 	register(&PropSpec{ID: "C06",
 		Explanation: "Exclusion clause of teletext decoding only (packets of other pages, magazines, PIDs, non-subtitle units never contribute text; characters failing parity contribute none; only boxed text): the chain of control-dependence guards on the only path along which bytes reach a cue's text is decided on the SSA dominator tree — parsePacketData only under receiving ∧ magazine match ∧ 1 ≤ packet ≤ 25; parsePacket only for data-unit id 0x03, framing code 0xe4 and two successful Hamming decodes; parseDataUnit only for EBU data identifiers; process only for the teletext PID, private stream 1 and a presentation time; a page instance starts only on page ∧ magazine match; run text grows only after a start-box; the stored byte is ByteParity's result or 0. Tables: every teletextCharsets row sets g0, national positions < 96, 700+ entries are single UTF-8 runes, colour codes 0–7 map to black…white with the CSS RGB values. Not decided: page scheduling, timing, serial/parallel termination, auto-detection — behaviours of a state machine over the packet sequence; there is no sibling encoder to cross-check against.",
